@@ -8,6 +8,7 @@ import (
 	"runtime"
 	"strconv"
 	"strings"
+	"unicode"
 
 	"github.com/lyraproj/issue/issue"
 	"github.com/lyraproj/pcore/pcore"
@@ -124,7 +125,7 @@ func tokens(s string, o *Obs) {
 	toks, failure, line, col := types.VerifTokens(s)
 	var tb, fl, rx []string
 	for _, t := range toks {
-		tb = append(tb, fmt.Sprintf("(%d%%nat, %s)", t.Kind, lib.GStr(t.Text)))
+		tb = append(tb, fmt.Sprintf("(%d%%nat, %s, %s, %s)", t.Kind, lib.GStr(t.Text), lib.GZ(int64(t.Line)), lib.GZ(int64(t.Column))))
 		switch t.Kind {
 		case 4: // float
 			f, err := strconv.ParseFloat(t.Text, 64)
@@ -138,7 +139,17 @@ func tokens(s string, o *Obs) {
 			rx = append(rx, fmt.Sprintf("(%s, %s)", lib.GStr(t.Text), lib.GBool(err == nil)))
 		}
 	}
-	o.Aux["tokens"] = lib.GList(tb, "nat * str")
+	o.Aux["tokens"] = lib.GList(tb, "nat * str * Z * Z")
+	// oracle unicode.IsLetter: the non-ASCII runes of the input that are letters
+	var ls []string
+	seen := map[rune]bool{}
+	for _, r := range s {
+		if r >= 0x80 && !seen[r] && unicode.IsLetter(r) {
+			seen[r] = true
+			ls = append(ls, lib.GN(uint64(r)))
+		}
+	}
+	o.Aux["letters"] = lib.GList(ls, "N")
 	o.Aux["floats"] = lib.GList(fl, "str * option Z")
 	o.Aux["regexps"] = lib.GList(rx, "str * bool")
 	var lo Obs
